@@ -135,6 +135,50 @@ fn check_type(ty: SignType, name: &str, expect: Option<(u8, u8, u32, u32)>, rep:
             }
         }
     }
+    // ... and the same when the sign was first (unsuccessfully) configured as ANOTHER type, or got two blocks in one
+    // transfer: the dimensions must be those of the LAST accepted block
+    if block.len() == 16 {
+        let own = 0x0021u16;
+        for other in TYPES.iter().filter(|o| o.ty != ty) {
+            for variant in 0..2 {
+                let ob = other.ty.to_bytes().to_vec();
+                let mut msgs = vec![RefMsg::Request(own, O_RECV_CFG), RefMsg::Data { offset: 0, data: ob }];
+                if variant == 0 {
+                    // failed transfer (wrong count), then a retry straight from ConfigFailed with this type's block
+                    msgs.push(RefMsg::Count(2));
+                    msgs.push(RefMsg::Request(own, O_RECV_CFG));
+                    msgs.push(RefMsg::Data { offset: 0, data: block.clone() });
+                    msgs.push(RefMsg::Count(1));
+                } else {
+                    msgs.push(RefMsg::Data { offset: 0, data: block.clone() });
+                    msgs.push(RefMsg::Count(2));
+                }
+                let img = RefPage::new(9, w, h).image();
+                msgs.push(RefMsg::Request(own, O_RECV_PIX));
+                let mut n = 0u16;
+                for (i, c) in img.chunks(16).enumerate() {
+                    msgs.push(RefMsg::Data { offset: (i * 16) as u16, data: c.to_vec() });
+                    n += 1;
+                }
+                msgs.push(RefMsg::Count(n));
+                let mut pair = Pair::new(own, variant == 1);
+                let mut panicked = false;
+                for m in &msgs {
+                    if vsx::step(&mut pair, m).panic.is_some() {
+                        panicked = true;
+                        break;
+                    }
+                }
+                rep.count("virtual_sign_reconfigurations");
+                let pages = pair.sign.pages();
+                let ok = !panicked && pair.sign.sign_type() == Some(ty) && pages.len() == 1 && pages[0].width() == w && pages[0].height() == h && pages[0].as_bytes() == &img[..];
+                if !ok {
+                    let what = format!("after {} as {} the virtual sign records type {:?} and holds {} page(s){}", if variant == 0 { "a failed configuration" } else { "an earlier block in the same transfer" }, other.name, pair.sign.sign_type(), pages.len(), if panicked { " (panicked)" } else { "" });
+                    rep.violation(MON_T, "virtual_sign_disagrees_after_reconfiguration", &format!("{}<-{}:{}", name, other.name, variant), format!("{}: {}", name, what), J::obj(vec![("type", J::s(name)), ("previous_type", J::s(other.name)), ("history", J::Arr(msgs.iter().take(8).map(|m| J::s(m.show())).collect())), ("observed", J::s(what.clone()))]));
+                }
+            }
+        }
+    }
     rep.count("types_checked");
     rep.sample_always(J::obj(vec![("type", J::s(name)), ("block", J::hex(&block)), ("dimensions", J::s(format!("{}x{}", w, h)))]));
 }
@@ -250,6 +294,7 @@ pub fn run(ctx: &Ctx) -> Outcome {
         floor("all 65536 (family, id) pairs swept", report.get("pairs_swept") == 65_536, report.get("pairs_swept")),
         floor("every length 0..=40", report.set_len("lengths") == 41, report.set_len("lengths")),
         floor("listed pairs accepted and unlisted pairs rejected", report.get("accepted_listed") >= 11 * 8 && report.get("rejected_unlisted") > 500_000, report.get("accepted_listed")),
+        floor("virtual sign reconfigured from every other type (11 x 10 x 2 histories)", report.get("virtual_sign_reconfigurations") == 220, report.get("virtual_sign_reconfigurations")),
         floor("virtual sign configured with every type's block", report.get("virtual_sign_configurations") >= 11, report.get("virtual_sign_configurations")),
     ];
     Outcome {
